@@ -274,6 +274,74 @@ Proof.
       unfold D in C. congruence.
 Qed.
 
+(* ------------------------------------------------------------------ no 9 | 10 tie *)
+
+(* The one-digit decimals 9 * 10^j and 10 * 10^j are never equidistant from a binary64 value
+   they both round to: the midpoint 19 * 10^j / 2 is not a dyadic rational for j < 0, and for
+   j >= 0 the two decimals are 10^j apart, more than one ulp of anything below 10^(j+1)
+   (the double is at least 9, hence normal: ulp v <= v * 2^-52 < 10^j). *)
+
+Lemma pow2_52_gt_10 : (10 * bpow radix2 (-52) < 1)%R.
+Proof.
+  change (-52) with (- (52)). rewrite bpow_opp, <- IZR_pow2 by lia.
+  assert (H : (10 < IZR (2 ^ 52))%R) by (apply IZR_lt; vm_compute; reflexivity).
+  apply Rmult_lt_reg_r with (IZR (2 ^ 52)); [lra|].
+  replace (10 * / IZR (2 ^ 52) * IZR (2 ^ 52))%R with 10%R by (field; lra). lra.
+Qed.
+
+Lemma tie_9_10_impossible : forall m e j,
+  valid_binary 53 1024 (S754_finite false m e) = true ->
+  round64 (9 * bpow radix10 j) = dbl_R m e ->
+  round64 (10 * bpow radix10 j) = dbl_R m e ->
+  (dbl_R m e - 9 * bpow radix10 j = 10 * bpow radix10 j - dbl_R m e)%R ->
+  False.
+Proof.
+  intros m e j Hvalid Ra Rb T.
+  assert (Hv : (2 * dbl_R m e = 19 * bpow radix10 j)%R) by lra.
+  assert (Hpj : (0 < bpow radix10 j)%R) by apply bpow_gt_0.
+  destruct (Z_lt_le_dec j 0) as [Hj|Hj].
+  - (* j < 0: 19 * 10^j / 2 is not dyadic *)
+    destruct (valid_bounds _ _ _ Hvalid) as [_ He].
+    set (p := - j).
+    assert (Hone : (bpow radix10 j * bpow radix10 p = 1)%R).
+    { rewrite <- bpow_plus. replace (j + p) with 0 by (unfold p; lia). reflexivity. }
+    assert (E : (2 * IZR (Zpos m) * bpow radix2 (e + 1074) * bpow radix10 p = 19 * bpow radix2 1074)%R).
+    { rewrite bpow_plus. unfold dbl_R in Hv.
+      transitivity ((2 * (IZR (Zpos m) * bpow radix2 e)) * bpow radix2 1074 * bpow radix10 p)%R; [ring|].
+      rewrite Hv.
+      transitivity (19 * bpow radix2 1074 * (bpow radix10 j * bpow radix10 p))%R; [ring|].
+      rewrite Hone. ring. }
+    rewrite <- !IZR_pow2, <- IZR_pow10 in E by (unfold p; lia).
+    rewrite <- !mult_IZR in E. apply eq_IZR in E.
+    replace p with (Z.succ (p - 1)) in E by lia. rewrite Z.pow_succ_r in E by (unfold p; lia).
+    assert (C : (19 * 2 ^ 1074) mod 5 = 1) by (vm_compute; reflexivity).
+    rewrite <- E in C.
+    replace (2 * Z.pos m * 2 ^ (e + 1074) * (10 * 10 ^ (p - 1)))
+      with ((2 * Z.pos m * 2 ^ (e + 1074) * 2 * 10 ^ (p - 1)) * 5) in C by ring.
+    rewrite Z.mod_mul in C by lia. discriminate C.
+  - (* j >= 0: the two decimals are more than an ulp apart *)
+    set (v := dbl_R m e) in *.
+    assert (H1 : (1 <= bpow radix10 j)%R) by (change 1%R with (bpow radix10 0); now apply bpow_le).
+    pose proof (error_le_half_ulp_round radix2 fexp64 (fun x => negb (Z.even x)) (9 * bpow radix10 j)) as Ea.
+    pose proof (error_le_half_ulp_round radix2 fexp64 (fun x => negb (Z.even x)) (10 * bpow radix10 j)) as Eb.
+    fold (round64 (9 * bpow radix10 j)) in Ea. fold (round64 (10 * bpow radix10 j)) in Eb.
+    rewrite Ra in Ea. rewrite Rb in Eb.
+    assert (Hvv : (v = 19 / 2 * bpow radix10 j)%R) by lra.
+    rewrite Rabs_pos_eq in Ea by lra. rewrite Rabs_left1 in Eb by lra.
+    assert (Hu : (ulp radix2 fexp64 v <= Rabs v * bpow radix2 (1 - 53))%R).
+    { unfold fexp64. apply ulp_FLT_le.
+      rewrite Rabs_pos_eq by lra.
+      apply Rle_trans with 1%R; [|lra].
+      change 1%R with (bpow radix2 0). apply bpow_le. lia. }
+    rewrite Rabs_pos_eq in Hu by lra. change (1 - 53) with (-52) in Hu.
+    pose proof pow2_52_gt_10 as P.
+    assert (Hb2 : (0 < bpow radix2 (-52))%R) by apply bpow_gt_0.
+    assert (bpow radix10 j <= ulp radix2 fexp64 v)%R by lra.
+    assert (v * bpow radix2 (-52) < bpow radix10 j)%R; [|lra].
+    rewrite Hvv. 
+    apply Rle_lt_trans with (bpow radix10 j * (10 * bpow radix2 (-52)))%R; [nra|nra].
+Qed.
+
 Theorem nks_closest : forall m e n k s,
   valid_binary 53 1024 (S754_finite false m e) = true ->
   nks m e = Some (n, k, s) ->
@@ -284,7 +352,7 @@ Theorem nks_closest : forall m e n k s,
   let y' := (IZR s' * bpow radix10 (n' - k))%R in
   (Rabs (y - v) <= Rabs (y' - v))%R /\
   (Rabs (y - v) = Rabs (y' - v) ->
-     (s', n') = (s, n) \/ Z.even s = true \/ (k = 1 /\ s = 9 /\ s' = 1)).
+     (s', n') = (s, n) \/ Z.even s = true).
 Proof.
   intros m e n k s Hvalid H s' n' Hs' Hr v y y'.
   destruct (nks_some _ _ _ _ _ H) as [Hk [Hs _]].
@@ -319,14 +387,14 @@ Proof.
       intros T. left. apply Huniq; [exact Hc1|]. fold a. lra.
     + rewrite Hok in O1. discriminate O1.
     + rewrite E. fold b. rewrite Hbv. split; [lra|]. intros T. exfalso. lra.
-    + rewrite E. fold b. rewrite Hbv. split; [lra|]. intros T. right. left.
+    + rewrite E. fold b. rewrite Hbv. split; [lra|]. intros T. right.
       apply (f_equal fst) in E. cbn [fst] in E. rewrite E. exact Ev.
     + rewrite E. fold a. rewrite Ha. split; [lra|].
       intros T. left. apply Huniq; [exact Hc1|]. fold a. lra.
   - (* y' is at or above the ceiling candidate *)
     assert (Hy' : Rabs (y' - v) = (y' - v)%R) by (rewrite Rabs_pos_eq; lra).
     rewrite Hy'.
-    destruct Hb as [[_ [O2 _]]|[[_ [_ E]]|[_ [_ [[L E]|[[L [Ev E]]|[L [Q E]]]]]]]].
+    destruct Hb as [[_ [O2 _]]|[[_ [_ E]]|[O1 [O2 [[L E]|[[L [Ev E]]|[L [Q E]]]]]]]].
     + rewrite Hok in O2. discriminate O2.
     + rewrite E. fold b. rewrite Hbv. split; [lra|].
       intros T. left. apply Huniq; [exact Hc2|]. fold b. lra.
@@ -341,17 +409,34 @@ Proof.
       assert (Q' : Z.even (fst c2) = false) by (apply Q; lra).
       rewrite Efl in E. injection E as Es En.
       destruct Hstruct as [E2|[Hfull E2]]; rewrite E2 in Q', Ec2; cbn [fst] in Q'.
-      * left. rewrite Es. rewrite Z.add_1_r, Z.even_succ in Q'.
+      * rewrite Es. rewrite Z.add_1_r, Z.even_succ in Q'.
         rewrite <- Z.negb_odd, Q'. reflexivity.
-      * right. injection Ec2 as Es' _.
+      * exfalso.
         destruct (Z.eq_dec k 1) as [->|Hk2].
-        { change (10 ^ (1 - 1)) with 1 in Es'. change (10 ^ 1) with 10 in Hfull. repeat split; lia. }
-        exfalso. replace (k - 1) with (Z.succ (k - 2)) in Q' by lia.
+        { (* k = 1: the floor is 9 * 10^(N-1), the ceiling 10^N, and the double would be their
+             midpoint *)
+          assert (Hfl9 : fl = 9) by (change (10 ^ 1) with 10 in Hfull; lia).
+          assert (Hp1 : 0 < fst c1) by (rewrite Efl; cbn [fst]; lia).
+          assert (Hp2 : 0 < fst c2) by (rewrite E2; cbn [fst]; vm_compute; reflexivity).
+          apply (cand_ok_iff m e Hvalid 1 c1 Hp1) in O1. destruct O1 as [_ O1].
+          apply (cand_ok_iff m e Hvalid 1 c2 Hp2) in O2. destruct O2 as [_ O2].
+          assert (Ea : a = (9 * bpow radix10 (dbl_decade m e - 1))%R).
+          { unfold a. rewrite Efl. unfold cand_val. cbn [fst snd]. rewrite Hfl9. reflexivity. }
+          assert (Eb : b = (10 * bpow radix10 (dbl_decade m e - 1))%R).
+          { unfold b. rewrite E2. unfold cand_val. cbn [fst snd].
+            change (10 ^ (1 - 1)) with 1. rewrite Rmult_1_l.
+            replace (dbl_decade m e + 1 - 1) with (1 + (dbl_decade m e - 1)) by lia.
+            rewrite bpow_plus, <- (IZR_pow10 1) by lia. reflexivity. }
+          fold a in O1. fold b in O2. rewrite Ea in O1. rewrite Eb in O2.
+          apply (tie_9_10_impossible m e (dbl_decade m e - 1) Hvalid O1 O2).
+          rewrite <- Ea, <- Eb. fold v. lra. }
+        replace (k - 1) with (Z.succ (k - 2)) in Q' by lia.
         rewrite Z.pow_succ_r, Z.even_mul in Q' by lia. discriminate Q'.
 Qed.
 
 
-(* The weaker reading of the tie rule: the chosen s is even unless its rival is odd too. *)
+(* The tie rule on its own: on an exact tie between two distinct k-digit decimals that round to
+   the double, the chosen s is even. *)
 Corollary nks_tie_even : forall m e n k s,
   valid_binary 53 1024 (S754_finite false m e) = true ->
   nks m e = Some (n, k, s) ->
@@ -359,11 +444,11 @@ Corollary nks_tie_even : forall m e n k s,
   nearest_double_pos (Z.to_pos s') (n' - k) = S754_finite false m e ->
   (s', n') <> (s, n) ->
   Rabs (IZR s * bpow radix10 (n - k) - dbl_R m e) = Rabs (IZR s' * bpow radix10 (n' - k) - dbl_R m e) ->
-  Z.even s = true \/ Z.even s' = false.
+  Z.even s = true.
 Proof.
   intros m e n k s Hvalid H s' n' Hs' Hr Hne T.
   destruct (nks_closest m e n k s Hvalid H s' n' Hs' Hr) as [_ Ht].
-  destruct (Ht T) as [E|[E|[_ [_ ->]]]]; [contradiction|now left|now right].
+  destruct (Ht T) as [E|E]; [contradiction|exact E].
 Qed.
 
 (* ------------------------------------------------------------------ ECMA-262 Number::toString, step 5 *)
@@ -387,7 +472,7 @@ Theorem nks_ecma : forall m e n k s,
       Rabs (IZR s' * bpow radix10 (n' - k) - dbl_R m e))%R /\
      (Rabs (IZR s * bpow radix10 (n - k) - dbl_R m e) =
       Rabs (IZR s' * bpow radix10 (n' - k) - dbl_R m e) ->
-      (s', n') = (s, n) \/ Z.even s = true \/ (k = 1 /\ s = 9 /\ s' = 1))).
+      (s', n') = (s, n) \/ Z.even s = true)).
 Proof.
   intros m e n k s Hvalid H.
   destruct (nks_some _ _ _ _ _ H) as [Hk [Hs Hr]].
